@@ -123,12 +123,22 @@ pub fn injected() -> io::Error {
     io::Error::new(io::ErrorKind::Other, FAULT_MSG)
 }
 
+pub const INTERRUPT_MSG: &str = "verif-interrupted";
+
+/// `ErrorKind::Interrupted`: nothing was read, the call is to be repeated (std's `read_to_end`,
+/// `read_exact`, `io::copy` and every careful consumer do so).
+pub fn interrupted() -> io::Error {
+    io::Error::new(io::ErrorKind::Interrupted, INTERRUPT_MSG)
+}
+
 #[derive(Clone, Debug, Default)]
 pub struct SrcOpts {
     /// offer `Err` as an alternative at each call (at most one per run)
     pub faults: bool,
     /// the injected error is returned once and later calls succeed (default: sticky)
     pub transient: bool,
+    /// the injected error is an `ErrorKind::Interrupted` (returned once; the call is to be repeated)
+    pub interrupt: bool,
     /// stream positions `b` for which sizes ending at b-1, b, b+1 are offered
     pub boundaries: Vec<usize>,
     /// the *default* answer returns at most this many bytes (uniform adversarial schedules)
@@ -215,6 +225,9 @@ impl Read for ScriptedReader {
             let c = self.script.choose(Kind::SrcEof, n);
             if c == 1 {
                 self.script.set_fault();
+                if self.opts.interrupt {
+                    return Err(interrupted());
+                }
                 self.failed = !self.opts.transient;
                 return Err(injected());
             }
@@ -233,6 +246,9 @@ impl Read for ScriptedReader {
             menu[c - 1]
         } else {
             self.script.set_fault();
+            if self.opts.interrupt {
+                return Err(interrupted());
+            }
             self.failed = !self.opts.transient;
             return Err(injected());
         };
@@ -354,10 +370,33 @@ pub fn consume<R: Read>(
 ) -> Consumed {
     let mut out = Vec::new();
     let mut calls = 0usize;
+    // interrupted reads in a row (repeated up to 64 times)
+    let mut interrupts = 0usize;
     let cap = 1 << 22;
     match mode {
         Consumer::ToEnd => {
-            let r2 = r.read_to_end(&mut out);
+            // std's read_to_end repeats interrupted reads without limit: a subject that answers
+            // `Interrupted` forever is turned into an error after 64 repeats in a row (the error state the subject is in is an
+            // error all the same)
+            struct Bounded<'a, R: Read>(&'a mut R, usize);
+            impl<R: Read> Read for Bounded<'_, R> {
+                fn read(&mut self, buf: &mut [u8]) -> io::Result<usize> {
+                    match self.0.read(buf) {
+                        Err(e) if e.kind() == io::ErrorKind::Interrupted => {
+                            self.1 += 1;
+                            if self.1 > 64 {
+                                return Err(io::Error::other("verif-livelock: the reader answers Interrupted without end"));
+                            }
+                            Err(e)
+                        }
+                        other => {
+                            self.1 = 0;
+                            other
+                        }
+                    }
+                }
+            }
+            let r2 = Bounded(r, 0).read_to_end(&mut out);
             calls = 1;
             Consumed {
                 out,
@@ -385,8 +424,13 @@ pub fn consume<R: Read>(
                         }
                     }
                     Ok(n) => {
+                        interrupts = 0;
                         out.extend_from_slice(&buf[..n]);
                         after_call(r, out.len());
+                    }
+                    Err(e) if e.kind() == io::ErrorKind::Interrupted && interrupts < 64 => {
+                        interrupts += 1;
+                        continue;
                     }
                     Err(e) => {
                         return Consumed {
@@ -425,8 +469,13 @@ pub fn consume<R: Read>(
                         }
                     }
                     Ok(n) => {
+                        interrupts = 0;
                         out.extend_from_slice(&buf[..n]);
                         after_call(r, out.len());
+                    }
+                    Err(e) if e.kind() == io::ErrorKind::Interrupted && interrupts < 64 => {
+                        interrupts += 1;
+                        continue;
                     }
                     Err(e) => {
                         return Consumed {
@@ -446,6 +495,7 @@ pub fn consume<R: Read>(
 pub fn consume_bufread<R: BufRead>(r: &mut R, script: &Script) -> Consumed {
     let mut out = Vec::new();
     let mut calls = 0usize;
+    let mut interrupts = 0usize;
     loop {
         calls += 1;
         if script.horizon_hit() {
@@ -464,7 +514,12 @@ pub fn consume_bufread<R: BufRead>(r: &mut R, script: &Script) -> Consumed {
                         calls,
                     };
                 }
+                interrupts = 0;
                 b.len()
+            }
+            Err(e) if e.kind() == io::ErrorKind::Interrupted && interrupts < 64 => {
+                interrupts += 1;
+                continue;
             }
             Err(e) => {
                 return Consumed {
